@@ -35,9 +35,10 @@ def leg_a(mon, n, invariants, workers=8, props=None, phase="ready", timeout=3000
     return r
 
 
-def alphabet(n, contents, side, dest):
+def alphabet(n, contents, side, dest, base=0):
     cfg = os.path.join(SPEC, "ChannelAlphabet.cfg")
-    vlib.tlc("ChannelAlphabet", cfg, env={"CH_OUT": dest, "CH_N": n, "CH_CONTENTS": contents, "CH_SIDE": side},
+    vlib.tlc("ChannelAlphabet", cfg, env={"CH_OUT": dest, "CH_N": n, "CH_CONTENTS": contents, "CH_SIDE": side,
+                                          "CH_BASE": base},
              workers=1, timeout=300, name="alphabet")
     return json.load(open(dest))
 
@@ -45,17 +46,18 @@ def alphabet(n, contents, side, dest):
 _EXTRACT_CACHE = {}
 
 
-def extract(binpath, n, contents, side, phase="ready", threads=16):
-    """Leg B step 1: exhaustive exploration of the implementation's state graph."""
-    key = (n, contents, side, phase)
+def extract(binpath, n, contents, side, phase="ready", threads=16, base=0):
+    """Leg B step 1: exhaustive exploration of the implementation's state graph.
+    base > 0 (side "deepcp"): the counterparty side starts after `base` honest commitment cycles."""
+    key = (n, contents, side, phase, base)
     if key in _EXTRACT_CACHE:
         return _EXTRACT_CACHE[key]
-    d = vlib.workdir("chan-b-%s-%s-%s-%d" % (side, phase, contents, n))
+    d = vlib.workdir("chan-b-%s-%s-%s-%d%s" % (side, phase, contents, n, ("-base%d" % base) if base else ""))
     alpha = os.path.join(d, "alphabet.json")
-    reqs = alphabet(n, contents, side, alpha)
+    reqs = alphabet(n, contents, side, alpha, base)
     t0 = time.time()
     stats = vlib.run_bin(binpath, ["explore", "--alphabet", alpha, "--n", n, "--out", os.path.join(d, "ex"),
-                                   "--phase", phase, "--threads", threads])
+                                   "--phase", phase, "--threads", threads, "--base", base])
     nodes = os.path.join(d, "nodes.ndjson")
     rows = vlib.merge_nodes(os.path.join(d, "ex"), nodes)
     details = []
@@ -65,8 +67,8 @@ def extract(binpath, n, contents, side, phase="ready", threads=16):
                 details += [json.loads(l) for l in f if l.strip()]
     res = {"dir": d, "alphabet": alpha, "requests": reqs, "nodes": nodes, "stats": stats, "rows": len(rows),
            "details": details, "wall_s": time.time() - t0, "n": n, "side": side, "phase": phase,
-           "contents": contents}
-    log("[chan] explored impl side=%s phase=%s N=%d: %s in %.1fs" % (side, phase, n, stats, res["wall_s"]))
+           "contents": contents, "base": base}
+    log("[chan] explored impl side=%s phase=%s N=%d base=%d: %s in %.1fs" % (side, phase, n, base, stats, res["wall_s"]))
     _EXTRACT_CACHE[key] = res
     return res
 
@@ -106,7 +108,8 @@ def impl_tlc(ex, mon, invariants, workers=8, timeout=3000):
     vlib.write_cfg(cfg, "SPECIFICATION Spec\nVIEW View\n%sCHECK_DEADLOCK FALSE\n" % (
         ("INVARIANTS %s\n" % " ".join(invariants)) if invariants else ""))
     report = os.path.join(d, "report_%s.json" % mon)
-    env = {"CH_MON": mon, "CH_ALPHABET": ex["alphabet"], "CH_NODES": ex["nodes"], "CH_REPORT": report}
+    env = {"CH_MON": mon, "CH_ALPHABET": ex["alphabet"], "CH_NODES": ex["nodes"], "CH_REPORT": report,
+           "CH_BASE": ex.get("base", 0)}
     env.update(_env_switches())
     r = vlib.tlc("ImplChannel", cfg, env=env, workers=workers, timeout=timeout, name="impl-channel-" + mon)
     r["report"] = json.load(open(report))
